@@ -57,6 +57,8 @@ impl Archive {
     /// then rename tmp into place and fsync the parent dir. The archive is only
     /// ever written AFTER the data it describes has committed (commit-then-record).
     pub fn save(&self, path: &Path) -> std::io::Result<()> {
+        #[cfg(paiml_copia_verif)]
+        let path = copia_simworld::SimPathRef::from(path);
         if let Some(parent) = path.parent() {
             std::fs::create_dir_all(parent)?;
         }
